@@ -9,6 +9,12 @@
 //!  3. never-ending hostile streams behind a counting reader (c09_hostile);
 //!  4. delta-chain and origin checks against a model (c09_deltas);
 //!  5. byte-mutated documents and random bytes: no panic (c09_hostile).
+//!
+//! Literal cases (`vcheck C09 --case f`): a libFuzzer input of target
+//! `c09_rrdp`, `{"fuzz_target": "rrdp", "hex": bytes}` (octet 0 selects file
+//! kind, parser and reader chunking, the rest is the document; judged by the
+//! same `feed_as` as the mutants of workload 5), or `{"write_corpus": dir}`
+//! which writes the seed corpus of that target.
 
 use crate::c09_gen::{self as g, Kind, MDelta, MEl, MNotif, MSnap, SizePlan, Style};
 use crate::c09_io::Dribble;
@@ -19,6 +25,11 @@ use serde_json::json;
 use std::io::BufReader;
 
 pub fn run(ctx: &mut Ctx) {
+    // literal cases: libFuzzer artifact / seed corpus of the fuzz stage
+    if let Some(case) = ctx.case.clone() {
+        run_case(ctx, &case);
+        return;
+    }
     let limits = rpki::rrdp::VERIF_LIMITS;
     ctx.obs_max("configured_header_limit", limits.0);
     ctx.obs_max("configured_file_limit", limits.1);
@@ -483,4 +494,115 @@ fn short_sink_check(
         }
         Err(_) => ctx.obs("short_sink_write_error", 1),
     }
+}
+
+//------------ libFuzzer target c09_rrdp / literal cases ----------------------
+
+/// What the first octet of a fuzz input selects: the file kind (3), the parser
+/// (owned `parse` or `parse_limited` / the collecting processor) and whether
+/// the document is dribbled through a small `BufReader` (5 capacities) or
+/// handed over as a slice.
+pub fn fuzz_selector(sel: u8) -> (Kind, l::Via, Option<usize>) {
+    let sel = sel as usize;
+    let kind = Kind::ALL[sel % 3];
+    let via = if (sel / 3) % 2 == 0 { l::Via::Owned } else { l::Via::Alt };
+    let dribble = match (sel / 6) % 8 {
+        0..=2 => None,
+        d => Some(crate::c09_hostile::DRIBBLE_CAPS[d - 3]),
+    };
+    (kind, via, dribble)
+}
+
+fn judge_fuzz_input(ctx: &mut Ctx, data: &[u8]) {
+    let Some((sel, doc)) = data.split_first() else { return };
+    let (kind, via, dribble) = fuzz_selector(*sel);
+    crate::c09_hostile::feed_as(ctx, kind, via, dribble, "libfuzzer", doc);
+}
+
+/// One libFuzzer execution of target `c09_rrdp`: no panic (a library panic
+/// propagates, libFuzzer aborts on it) and any value the owned parser accepts
+/// must survive `write_xml` followed by a parse to an equal value; that
+/// finding panics with a message that starts with the violation signature, so
+/// the crash artifact replays natively through `vcheck C09 --case`.
+pub fn fuzz_one(group: &str, data: &[u8]) {
+    let _ = group; // one group: "rrdp"
+    let mut ctx = Ctx::new("C09", Tier::Thorough, Stage::Native, 0, 0, 1);
+    judge_fuzz_input(&mut ctx, data);
+    if ctx.violation_count() > 0 {
+        let out = ctx.finish();
+        let v = &out["violations"][0];
+        panic!("{} -- {}", v["sig"].as_str().unwrap_or("C09:fuzz:unnamed"), v["desc"].as_str().unwrap_or(""));
+    }
+}
+
+/// Seed corpus of target `c09_rrdp`: small notification / snapshot / delta
+/// files from the module's generators, in the library's own spelling
+/// (`write_xml`) and in the legal foreign spellings of the independent writer,
+/// for the owned parsers and for `parse_limited` / the collecting processors.
+fn write_corpus(ctx: &mut Ctx, dir: &str) {
+    let gdir = std::path::PathBuf::from(dir).join("c09_rrdp");
+    let _ = std::fs::create_dir_all(&gdir);
+    let mut rng = ctx.rng("corpus");
+    let mut written = 0u64;
+    let mut put = |sel: u8, doc: &[u8]| {
+        if doc.len() + 1 > 12_000 {
+            return;
+        }
+        let mut bytes = vec![sel];
+        bytes.extend_from_slice(doc);
+        if std::fs::write(gdir.join(format!("{:016x}", crate::core::fnv64(&bytes))), &bytes).is_ok() {
+            written += 1;
+        }
+    };
+    for i in 0..60u64 {
+        let plan = if i % 5 == 0 {
+            SizePlan { max_elements: 12, data_cap: 600, long_uris: false }
+        } else {
+            SizePlan { max_elements: 4, data_cap: 90, long_uris: false }
+        };
+        let st = if i % 2 == 0 { Style::plain() } else { Style::random(&mut rng) };
+        // selector octet: kind + 3 * via (+ 6 * dribble class)
+        let alt = if i % 3 == 2 { 3u8 } else { 0 };
+        let dribble = if i % 7 == 6 { 6 * 3 } else { 0 };
+        let n = g::gen_notif(&mut rng, &plan);
+        let s = g::gen_snap(&mut rng, &plan);
+        let d = g::gen_delta(&mut rng, &plan);
+        put(alt + dribble, &g::write_notif(&n, &st, &mut rng).bytes);
+        put(1 + alt + dribble, &g::write_snap(&s, &st, &mut rng).bytes);
+        put(2 + alt + dribble, &g::write_delta(&d, &st, &mut rng).bytes);
+        let mut x = Vec::new();
+        if l::lib_notif(&n).map(|v| v.write_xml(&mut x).is_ok()) == Some(true) {
+            put(alt, &x);
+        }
+        let mut x = Vec::new();
+        if l::lib_snap(&s).map(|v| v.write_xml(&mut x).is_ok()) == Some(true) {
+            put(1 + alt, &x);
+        }
+        let mut x = Vec::new();
+        if l::lib_delta(&d).map(|v| v.write_xml(&mut x).is_ok()) == Some(true) {
+            put(2 + alt, &x);
+        }
+    }
+    ctx.obs("fuzz_corpus_files_written", written);
+    ctx.evals(written);
+    ctx.sig("corpus-written");
+    ctx.sig("corpus");
+}
+
+fn run_case(ctx: &mut Ctx, case: &serde_json::Value) {
+    if let Some(dir) = case["write_corpus"].as_str() {
+        write_corpus(ctx, dir);
+        return;
+    }
+    if case["fuzz_target"].as_str().is_some() {
+        let raw = crate::core::unhex(case["hex"].as_str().unwrap_or(""));
+        judge_fuzz_input(ctx, &raw);
+        ctx.sig("replay");
+        if let Some(sel) = raw.first() {
+            let (kind, via, dribble) = fuzz_selector(*sel);
+            ctx.sig(&format!("replay|{}|{:?}|{:?}", kind.name(), via, dribble));
+        }
+        return;
+    }
+    ctx.notes.push("C09: case file of unknown shape".into());
 }
